@@ -1021,6 +1021,9 @@ pub fn exhaustive_family(prop: &str, tier: &str, rng: &mut Rng, shard: (usize, u
             for d in argument_sibling_cases() {
                 docs.push(("argument-siblings".to_string(), d.print()));
             }
+            for d in directive_argument_cases() {
+                docs.push(("directive-arguments".to_string(), d.print()));
+            }
         }
         "C11" => {
             for d in subscription_roots() {
